@@ -903,6 +903,8 @@ def run(ck: core.Check):
             tag = "usedArgs-differs-from-reachability"
         elif is_drop and not o.get("dropValid"):
             tag = "real-drop_unused_inputs-emission-is-not-valid-for-dropUnused"
+        elif not (o.get("leaf") and o.get("argsOk")):
+            tag = "side-conditions-of-usedArgs_least-do-not-hold (argsLeaf / isArg / notFormal)"
         elif not o["wf"]:
             tag = "wfCheck-false"
         elif not o["valid"]:
